@@ -91,9 +91,13 @@ type ext3Faulty struct {
 	getMode string
 	rawSet  string
 	nSet    int
+	nGet    int
 }
 
 func (f *ext3Faulty) Get(ctx context.Context, key string) (val []byte, ok bool, err error) {
+	f.mu.Lock()
+	f.nGet++
+	f.mu.Unlock()
 	switch f.getMode {
 	case "err":
 		return nil, false, fmt.Errorf("ext3: injected store failure")
@@ -196,6 +200,7 @@ type ext3Event struct {
 	Body    *ext3Body `json:"body,omitempty"`
 	BodyOK  bool      `json:"bodyok"`
 	BodyRaw string    `json:"bodyraw"`
+	NGet    int       `json:"nget"`
 	// F
 	ID []string `json:"id"`
 }
@@ -545,12 +550,13 @@ func (w *ext3World) web(n, host, port, target, gm, class string) {
 	r := httptest.NewRequest(http.MethodGet, "http://placeholder.invalid"+target, nil)
 	r.Host = hdr
 	rw := httptest.NewRecorder()
-	w.faulty.getMode = gm
+	w.faulty.getMode, w.faulty.nGet = gm, 0
 	w.nodes[n].ServeHTTP(rw, r)
 	w.faulty.getMode = "ok"
 	e := ext3Event{Ev: "W", Seg: w.seg, Src: w.src, T: w.clk.sec, Node: n, Host: ext3Chars(host), HostHdr: hdr, Path: r.URL.Path,
 		Target: target, GM: gm, Status: rw.Code, CType: rw.Header().Get("Content-Type"),
-		ACAO: rw.Header().Get("Access-Control-Allow-Origin"), Body: &ext3Body{}, Class: class, Ans: []string{}}
+		ACAO: rw.Header().Get("Access-Control-Allow-Origin"), Body: &ext3Body{}, Class: class, Ans: []string{},
+		NGet: w.faulty.nGet}
 	if rw.Code == http.StatusOK {
 		e.BodyRaw = rw.Body.String()
 		e.Body, e.BodyOK = ext3ParseBody(rw.Body.Bytes())
